@@ -69,7 +69,7 @@ Consume ==
                /\ tbp' = IF e.ok THEN tbp \ SeqToSet(e.addrs) ELSE tbp
                /\ ti' = ti
                /\ viol' = viol \o PatchChecks(k, e, IF ti = 0 THEN {} ELSE tbp')
-          [] e.cmd \in {"start", "continue"} ->
+          [] (e.cmd = "start" /\ ti = 0) \/ (e.cmd = "continue" /\ ti \in 1..N) ->
                LET want == RefContinue(ti, tbp) IN
                /\ tbp' = tbp
                /\ ti' = IF e.idx = 0 THEN want ELSE e.idx
@@ -86,7 +86,14 @@ Consume ==
                                    ELSE <<>>)
                              ELSE (IF e.said # "breakpoint" THEN <<V(k, "stop_reason_wrong", e.cmd, "breakpoint", e.said)>> ELSE <<>>)
                                   \o PlaceChecks(k, e, want) \o PatchChecks(k, e, tbp) \o BtChecks(k, e, want)))
-          [] e.cmd \in {"stepi", "step", "next", "finish"} ->
+          [] e.cmd \in {"stepi", "step", "next", "finish", "continue"} /\ ti \notin 1..N ->
+               \* no process is stopped (not started / exited): the command must be refused and change nothing
+               /\ UNCHANGED <<ti, tbp>>
+               /\ viol' = viol \o (IF e.ok THEN <<V(k, "accepted_without_process", e.cmd, "error", "ok")>> ELSE <<>>)
+          [] e.cmd = "start" /\ ti # 0 ->
+               /\ UNCHANGED <<ti, tbp>>
+               /\ viol' = viol \o (IF e.ok THEN <<V(k, "accepted_without_process", e.cmd, "error", "ok")>> ELSE <<>>)
+          [] e.cmd \in {"stepi", "step", "next", "finish"} /\ ti \in 1..N ->
                LET adm == Adm(e.cmd, ti)
                    cut == RefContinue(ti, tbp)
                    j   == e.idx IN
